@@ -211,6 +211,74 @@ def r36_none_vs_zero(ctx):
                    "never tested by truthiness" % (len(nullable),
                                                    ", ".join(nullable)),
                    ("C07", "C09", "C20", "C08"))
+    _r36_year_truthiness(ctx)
+
+
+def _r36_year_truthiness(ctx):
+    """Year 0 is a year (and a leap one): a year - a parameter or local
+    called `year` / `*_year`, or a `_year` slot - is never tested by
+    truthiness anywhere in the data model."""
+    rep = ctx.rep
+    rule = "R36.none-vs-zero"
+    bad = []
+    n_f = 0
+
+    def is_year(e):
+        if isinstance(e, ast.Name):
+            # (`expanded_year` is the captured digit *string* of the
+            # expanded-year field, not a year)
+            return (e.id == "year" or e.id.endswith("_year")) and \
+                "expanded" not in e.id
+        if isinstance(e, ast.Attribute):
+            return e.attr in ("_year", "year")
+        return False
+
+    def uses(e):
+        out = []
+        if isinstance(e, ast.BoolOp):
+            for v in e.values:
+                out.extend(uses(v))
+        elif isinstance(e, ast.UnaryOp) and isinstance(e.op, ast.Not):
+            out.extend(uses(e.operand))
+        elif is_year(e):
+            out.append(e)
+        elif isinstance(e, ast.Call) and U(e.func) == "bool" and e.args:
+            out.extend(uses(e.args[0]))
+        return out
+    for f in ctx.model.all_functions():
+        if f.module.name not in ("data", "parsers", "dumpers"):
+            continue
+        n_f += 1
+        for n in walk_no_nested(f.node):
+            tests = []
+            if isinstance(n, (ast.If, ast.While, ast.IfExp)):
+                tests.append(n.test)
+            elif isinstance(n, ast.BoolOp):
+                tests.append(n)
+            elif isinstance(n, ast.UnaryOp) and isinstance(n.op, ast.Not):
+                tests.append(n)
+            for t in tests:
+                for x in uses(t):
+                    # flags like is_leap_year / has_year are booleans
+                    if isinstance(x, ast.Name) and x.id.startswith(
+                            ("is_", "has_")):
+                        continue
+                    bad.append((f, x))
+    seen = set()
+    for f, x in bad:
+        k = (f.qual, U(x))
+        if k in seen:
+            continue
+        seen.add(k)
+        rep.violation(
+            rule, ctx.fkey(f, None, "year-truthiness:" + U(x)), f.loc(x),
+            "%s tests the year `%s` by truthiness: year 0 (a leap year of "
+            "the proleptic calendar) is taken for 'no year'" % (
+                f.qual, U(x)), ("C03", "C09", "C01", "C05", "C07"))
+    if not bad:
+        rep.ok(rule, "data.py:years:never-truthy", "-",
+               "no year value is tested by truthiness (%d functions)" % n_f,
+               ("C03", "C09"))
 
 
 # ------------------------------------------------------------------- R37
@@ -465,11 +533,57 @@ class _FormPlugin(Plugin):
         return [d], [dict(d)]
 
 
+def _r40_days_normalised(ctx, rep, rule, dur):
+    """Unit form means every unit slot is a number.  The constructor folds
+    weeks into days; with a weeks argument that is a number (0 by default)
+    the day slot must come out as a number even when `days=None` was passed:
+    the raw `days` argument may survive in the slot only on paths that have
+    established `weeks is None` or `days is not None`."""
+    from ..dtable import explore
+    init = dur.methods.get("__init__")
+    if init is None or "days" not in init.call_params or \
+            "weeks" not in init.call_params:
+        return
+    sn = init.self_name
+    prefix = []
+    for st in init.node.body:
+        if any(isinstance(x, ast.Attribute) and x.attr == "_hours" and
+               isinstance(x.ctx, ast.Store) for x in ast.walk(st)):
+            break
+        prefix.append(st)
+    bad = []
+    n_paths = 0
+    for p in explore(prefix):
+        if p.outcome == "return":
+            continue
+        n_paths += 1
+        v = p.env.get("@%s._days" % sn)
+        if v is None or U(v) != "days":
+            continue
+        weeks_none = p.decisions.get("weeks is None")
+        days_none = p.decisions.get("days is None")
+        if weeks_none is not True and days_none is not False:
+            bad.append(p.when()[:80] or "unconditionally")
+    if n_paths:
+        rep.check(not bad, rule, ctx.fkey(init, None, "days-normalised"),
+                  init.loc(),
+                  "with a numeric weeks argument the day slot is always a "
+                  "number (%d paths)" % n_paths,
+                  "Duration.__init__ leaves the raw `days` argument in the "
+                  "day slot on a path (%s) that has neither a missing weeks "
+                  "argument nor a given days: Duration(..., days=None) - the "
+                  "date-time-like spelling P0004-03 - keeps None there, and "
+                  "every comparison or total of that duration raises "
+                  "TypeError" % "; ".join(sorted(set(bad))[:2]),
+                  ("C11", "C10"))
+
+
 def r40_duration_form(ctx):
     rep = ctx.rep
     rule = "R40.duration-form"
     dur = ctx.model.cls("Duration")
     rep.need_anchor(rule, "form-dispatching methods")
+    _r40_days_normalised(ctx, rep, rule, dur)
     ie = dur.methods.get("is_exact")
     if ie is not None:
         ifs = [n for n in walk_no_nested(ie.node) if isinstance(n, ast.If)]
@@ -1268,3 +1382,64 @@ def r50_length_needs_its_year(ctx):
 
 
 RULES["R50"] = r50_length_needs_its_year
+
+
+# ------------------------------------------------------------------- R52
+def r52_zone_default_precedence(ctx):
+    """A text without a zone gets, in this order of precedence: the assumed
+    offset the parser was given; no zone at all if it was told to default to
+    an unknown zone; otherwise the system's local offset.  Decision table of
+    process_time_zone_info: whenever it hands back *no* zone information the
+    path has established that no assumed offset was given, and the local
+    offset is consulted only on paths where neither option applies."""
+    rep = ctx.rep
+    rule = "R52.zone-default-precedence"
+    P = ("C07",)
+    from ..dtable import explore
+    f = ctx.try_func("parsers.TimePointParser.process_time_zone_info")
+    rep.need_anchor(rule, "zone defaults")
+    if f is None:
+        raise AnalysisError("TimePointParser.process_time_zone_info not found")
+    rep.anchor(rule, "zone defaults")
+    sn = f.self_name
+    a_none = "%s.assumed_time_zone is None" % sn
+    d_unk = "%s.default_to_unknown_time_zone" % sn
+    problems = []
+    n_paths = 0
+    for p in explore(f.node.body):
+        if p.outcome != "return" or p.value is None:
+            continue
+        n_paths += 1
+        txt = U(p.value)
+        empty = isinstance(p.value, ast.Dict) and not p.value.keys
+        raw = p.stmt.value if p.stmt is not None else None
+        if empty and isinstance(raw, ast.Name) and any(
+                k.startswith("@%s[" % raw.id) for k in p.env):
+            empty = False       # items were stored into the returned dict
+        uses_local = any("get_local_time_zone" in U(v)
+                         for k, v in p.env.items())
+        if empty and p.decisions.get(a_none) is not True:
+            problems.append(
+                "no zone information is returned on a path that has not "
+                "established that no assumed offset was given (%s)" %
+                (p.when()[:80] or "unconditionally"))
+        if uses_local and "time_zone_hour" in " ".join(p.env) and (
+                p.decisions.get(a_none) is not True or
+                p.decisions.get(d_unk) is not False):
+            problems.append(
+                "the local offset is used on a path where %s" % (
+                    "an assumed offset may have been given"
+                    if p.decisions.get(a_none) is not True else
+                    "an unknown zone may have been asked for"))
+    if not n_paths:
+        rep.error("R52", "process_time_zone_info: no returning path read")
+        return
+    rep.check(not problems, rule, ctx.fkey(f, None, "precedence"), f.loc(),
+              "assumed offset, then unknown zone, then local offset (%d "
+              "paths)" % n_paths,
+              "process_time_zone_info: %s - an assumed offset must win over "
+              "default_to_unknown_time_zone, which must win over the local "
+              "offset" % "; ".join(sorted(set(problems))), P)
+
+
+RULES["R52"] = r52_zone_default_precedence
